@@ -31,7 +31,7 @@ def main():
         props = ", ".join(p + (":" + h.prop_tier[p] if p in h.prop_tier else "") for p in h.props)
         rows.append("| `%s` | %s | %s | %s | %s | %s | %s |" % (
             h.id, props, h.tier, v[0] if v else "not run", ("%.0f" % v[1]) if v and v[1] is not None else "", v[2] if v else "",
-            (h.desc[:160] + "…") if len(h.desc) > 160 else h.desc))
+            ((h.desc[:160] + "…") if len(h.desc) > 160 else h.desc).replace("|", "\\|")))
     p = os.path.join(V, "DESIGN.md")
     s = open(p).read()
     if BEGIN in s:
